@@ -1463,20 +1463,19 @@ func Now(env envs.Environment) types.XValue {
 //
 // @function date_from_parts(year, month, day)
 func DateFromParts(env envs.Environment, year, month, day int) types.XValue {
-	if year < 1 || year > 9999 {
-		return types.NewXErrorf("invalid value for year, must be 1-9999")
-	}
 	if month < 1 || month > 12 {
 		return types.NewXErrorf("invalid value for month, must be 1-12")
 	}
 
-	// the fields are kept as they are, so they have to be a date of the calendar: 30 February would be written as 2 March
-	// and so be a value that isn't equal to the one its own text is read as
-	if day < 1 || day > time.Date(year, time.Month(month)+1, 0, 0, 0, 0, 0, time.UTC).Day() {
-		return types.NewXErrorf("invalid value for day, must be a day of the given month")
+	// a day beyond the end of the month counts on into the following month, e.g. 31 February 2017 is 3 March.. the date
+	// value has to hold the fields of that calendar date, not the ones given, so that it's equal to the date that its own
+	// text is read as
+	normalized := time.Date(year, time.Month(month), day, 0, 0, 0, 0, time.UTC)
+	if normalized.Year() < 1 || normalized.Year() > 9999 {
+		return types.NewXErrorf("invalid value for year, must be 1-9999")
 	}
 
-	return types.NewXDate(dates.NewDate(year, month, day))
+	return types.NewXDate(dates.NewDate(normalized.Year(), int(normalized.Month()), normalized.Day()))
 }
 
 // Weekday returns the day of the week for `date`.
